@@ -398,10 +398,19 @@ def main(argv=None):
                 rp['replay_result'] = o['replay']
             elif os.path.exists(rscript) and (o.get('inputs') is not None or o['kind'] == 'pre@call'):
                 payload = {'function': owner, 'obligation': o['name'], 'inputs': o.get('inputs'),
-                           'consts': o.get('consts'), 'kind': o['kind'], 'site': o.get('site')}
+                           'consts': o.get('consts'), 'kind': o['kind'], 'site': o.get('site'), 'spec': o.get('expr')}
                 rp['replay_payload'] = payload
                 res = run_venv(rscript, payload, timeout=120)
                 rp['replay_result'] = res
+                if res.get('confirmed') is not None:
+                    confirmed = bool(res['confirmed'])
+            if confirmed is None and o.get('inputs') is not None and o['kind'] in ('post', 'exc-post', 'raises'):
+                # no hand-written replayer decided it: generic replay (plain arguments only; never confirms by default)
+                payload = {'function': owner, 'obligation': o['name'], 'inputs': o.get('inputs'),
+                           'consts': o.get('consts'), 'kind': o['kind'], 'site': o.get('site'), 'spec': o.get('expr')}
+                rp['replay_payload'] = payload
+                res = run_venv(os.path.join(VERIF, 'replay', 'generic.py'), payload, timeout=120)
+                rp['generic_replay_result'] = res
                 if res.get('confirmed') is not None:
                     confirmed = bool(res['confirmed'])
             h = hashlib.sha256(o['name'].encode()).hexdigest()[:10]
